@@ -20,9 +20,14 @@ func init() {
 }
 
 // vfCounterEntropy is a deterministic entropy source: a 64-bit counter expanded over the request.
-type vfCounterEntropy struct{ n uint64 }
+type vfCounterEntropy struct {
+	mu vrt.Mutex // like the real sources, safe for concurrent use
+	n  uint64
+}
 
 func (c *vfCounterEntropy) Read(p []byte) (int, error) {
+	c.mu.Lock()
+	defer c.mu.Unlock()
 	for i := range p {
 		if i%8 == 0 {
 			c.n++
